@@ -385,6 +385,28 @@ pub fn sweep_c07(tier: &str, seed: u64) -> (usize, Vec<String>) {
         for (nm, arm) in arms() { chk8!(nm, Pipeline::<Dna, Dispatch>::with_backend(arm)); }
         if fails.len() > 6 { return (n, fails); }
     } }
+    // "when the wildcard column is -inf, float cells past the last valid position hold -inf, so the float maximum is the best valid
+    // position's score": also for sequences produced by StripedSequence::sample (their padding cells must be wildcards too)
+    {
+        use rand::SeedableRng;
+        for (k, l) in [33usize, 40, 70, 100, 1000].iter().enumerate() {
+            let l = *l; let m = 3 + k;
+            let (cells, pssm) = rand_pssm::<Dna>(&mut rng, m, true);
+            let mut st = StripedSequence::<Dna, U32>::sample(rand::rngs::StdRng::seed_from_u64(seed + k as u64), Background::<Dna>::uniform(), l);
+            let lin: Vec<Nucleotide> = (0..l).map(|p| st[p]).collect();
+            st.configure(&pssm);
+            let best = (0..=l - m).map(|i| naive_score(&cells, &lin, i)).fold(f32::NEG_INFINITY, f32::max);
+            let case = format!("sampled sequence L={} M={}", l, m);
+            n += 1;
+            let pad_ok = { let r = (l + 31) / 32; (l..r * 32).all(|p| st.matrix()[p % r][p / r] == Nucleotide::N) };
+            if !pad_ok { fails.push(fail("seq_sample", "StripedSequence::sample leaves symbols other than the wildcard in the padding cells".into(), case.clone())); }
+            match catch_unwind(AssertUnwindSafe(|| { let sc = Pipeline::<Dna, _>::dispatch().score(&pssm, &st); let r = sc.matrix().rows(); let finite_tail = (l + 1 - m..r * 32).filter(|p| sc.matrix()[p % r][p / r] != f32::NEG_INFINITY).count(); (sc.max(), Maximum::<f32, U32>::max(&Pipeline::<Dna, _>::generic(), &sc), finite_tail) })) {
+                Ok((a, b, finite_tail)) => { if finite_tail > 0 { fails.push(fail("pli_score_padding", format!("{} float cells past the last valid position are not -inf although the wildcard column is -inf", finite_tail), case.clone())); }
+                    if a != Some(best) || b != Some(best) { fails.push(fail("pli_max", format!("float maximum over the score matrix = {:?} / {:?}, best valid position scores {}", a, b, best), case.clone())); } }
+                Err(_) => fails.push(fail("pli_max", format!("panic at {}", panic_loc()), case.clone())),
+            }
+        }
+    }
     // tall 8-bit matrices (more than 2^15 rows: over a million positions scored in one call): the arg-maximum sits in the last row
     for nrows in [32767usize, 32768, 32769, 50000, 65536] {
         let mut rows8: Vec<Vec<u8>> = (0..nrows).map(|i| (0..32).map(|j| ((i * 7 + j * 13) % 200) as u8).collect()).collect();
